@@ -371,7 +371,8 @@ def encoder(prop, tier, seed, replay):
         replay_cmd=lambda b, cf, out, rep: "%s/drive-codec buffers --cases %s --out %s" % (b, cf, out),
         trace_spec=("TraceEncoder.tla", "TraceEncoder.cfg"),
         case_of=lambda r: {"lens": r["lens"], "attrs": r.get("attrs", []), "use_attrs": r.get("use_attrs", False),
-                           "buf": r["buf"], "prefill": r["prefill"], "ctx": r.get("ctx", 0)},
+                           "buf": r["buf"], "prefill": r["prefill"], "ctx": r.get("ctx", 0),
+                           **({"special": r["special"]} if "special" in r else {})},
         rule="one record = one MessageEncoder::encode call for a message given by its attribute value "
              "lengths into a buffer of a given length and prefill: every buffer length 0..needed+8 x 3 "
              "prefills for small messages; buffers around needed / 64 KiB for messages whose body sits at, "
